@@ -325,6 +325,11 @@ FpxAccept(e) ==
 (* Known findings (DESIGN.md 2.8): narrowly keyed, enabled only when       *)
 (* listed in known_findings.json.                                          *)
 (***************************************************************************)
+(* the recorded Frobenius findings apply to events whose output is NOT the p^k-th power *)
+NotFrobenius(e) ==
+    LET ri == RInv(e)
+        T  == TowerOf(e, ri, e.lvl)
+    IN  El(e, ri, T, e.c) # TFrbFK(T, FrbConsts(T), Top(T), El(e, ri, T, e.a), e.k)
 AllZeroRaw(s) == \A i \in 1..Len(s) : BNorm(s[i]) = <<>>
 (* flat positions of the compressed coefficient g2 = a[1][0] *)
 G2Pos(e) == IF e.lvl = 12 THEN {7, 8} ELSE {10, 11, 12}
@@ -388,14 +393,14 @@ FpxKnownKey(e) ==
          \* fp54_frb: the corrections after the Frobenius constants are hard-coded per field size for one
          \* parameter set (#if FP_PRIME == 256 ...) and do not fit the other primes of that size
       [] e.f = "frb" /\ e.lvl = 54 /\ Len(e.a) = 54 /\ Len(e.c) = 54 /\ e.err = 0 /\ e.code = 0 /\ e.unch
-                /\ CanonAll(e, e.c) /\ e.k % 54 # 0
+                /\ CanonAll(e, e.c) /\ CanonAll(e, e.a) /\ e.k % 54 # 0 /\ NotFrobenius(e)
             -> "C10-fp54-frb"
          \* the Frobenius constants of the towers over fp2 are xi^(j (p-1) div 6) and xi^(p div 4): exact
          \* only for p = 1 (mod 6); on the selectable primes = 2 (mod 3) (brainpoolP256r1, SM2) whose
          \* residue classes still admit fp4 / fp6 the maps fp4_frb, fp6_frb, ... are not the p-th power
       [] e.f = "frb" /\ e.lvl \in {4, 6, 8, 12, 16, 24, 48} /\ Len(e.a) = e.lvl /\ Len(e.c) = e.lvl
                 /\ e.err = 0 /\ e.code = 0 /\ e.unch /\ CanonAll(e, e.c)
-                /\ BMod(P(e), <<3>>) = <<2>> /\ e.k % e.lvl # 0
+                /\ BMod(P(e), <<3>>) = <<2>> /\ e.k % e.lvl # 0 /\ CanonAll(e, e.a) /\ NotFrobenius(e)
             -> "C10-frb-p-2-mod-3"
          \* fp8_mul_dxs in builds whose prime leaves spare bits in the top digit (FP_PRIME = 381, FP_QNRES):
          \* fp4_mul_dxs_unr multiplies a full double-length product by the non-residue with fp2_norh_low, which
@@ -404,6 +409,9 @@ FpxKnownKey(e) ==
       [] e.f = "mul_dxs" /\ e.lvl = 8 /\ Len(e.a) = 8 /\ Len(e.b) = 8 /\ Len(e.c) = 8
                 /\ e.err = 0 /\ e.code = 0 /\ e.unch /\ CanonAll(e, e.a) /\ CanonAll(e, e.b)
                 /\ BBits(P(e)) % (8 * e.w) # 0 /\ (\A i \in DxsZero(e) : BNorm(e.b[i]) = <<>>)
+                /\ LET ri == RInv(e)
+                       T  == TowerOf(e, ri, 8)
+                   IN  ~(CanonAll(e, e.c) /\ El(e, ri, T, e.c) = TMul(T, 3, El(e, ri, T, e.a), El(e, ri, T, e.b)))
             -> "C10-fp8-mul-dxs-lazy-room"
       [] OTHER -> ""
 =============================================================================
